@@ -786,7 +786,9 @@ class FTCorrelationFunction(DFunction, UnitsManaged):
             except:
                 raise Exception("Dictionary of parameters does not contain "
                                 +" `ftype` key")
-        self.params = prms
+                
+            # all components are kept (not only the last one)
+            self.params.append(prms)
 
         if values is None:
             # data have to be protected from change of units
